@@ -9,6 +9,7 @@ import Mahotas.Proofs.C07Wrap
 import Mahotas.Proofs.C07Dilate
 import Mahotas.Proofs.C07Currank
 import Mahotas.Proofs.C07Float
+import Mahotas.Proofs.C07FloatBound
 import Mahotas.Proofs.C07Defined
 import Mahotas.Proofs.C07Majority
 import Mahotas.Properties.C01
@@ -648,6 +649,37 @@ example :
   rw [h]
   have : tmSpecAt .nearest f [1, 2] #[1, 5] [0, 0] = 40 := by decide
   rw [this]; norm_num
+
+/-- **C07-R4c' (forward error bound of float `template_match`).** For ANY rational image and template (every finite
+float is a rational), every border mode and pixel: the kernel `tmAtG` run with operations rounded to nearest with a
+53-bit significand returns a value between `(1 − u)^(N+3) · S` and `(1 + u)^(N+3) · S`, where `u = 2^-53`, `N` is the number
+of template entries and `S ≥ 0` is the same kernel in exact rational arithmetic (the exact sum of squared differences over
+the provided samples): the difference rounds once, its square carries that factor twice and rounds once, and each of the
+at most `N` additions rounds once; all terms are non-negative, so the bound is relative to `S` itself — no cancellation.
+This is the margin of the harness (`|got − S| ≤ 2 (N + 3) u · S`, with `(1+u)^k − 1 ≤ 2 k u` for `k u ≤ 1`). Overflow
+and underflow are outside the `Rounding` interface (unbounded exponent). -/
+theorem C07_template_match_float_error_bound (rnd : ℚ → ℚ) (hr : Mahotas.C05.Rounding rnd) (m : Mode) (f : Img ℚ)
+    (tshape : List Nat) (t : Array ℚ) (p : List Int) :
+    0 ≤ tmAtG exactTmOps m f tshape t p ∧
+    (1 - uRnd) ^ (shapeSize tshape + 3) * tmAtG exactTmOps m f tshape t p ≤ tmAtG (ratTmOps rnd) m f tshape t p ∧
+    tmAtG (ratTmOps rnd) m f tshape t p ≤ (1 + uRnd) ^ (shapeSize tshape + 3) * tmAtG exactTmOps m f tshape t p :=
+  tmAtG_rat_bound rnd hr m f tshape t p
+
+/-- non-vacuity: binary64 rounding of a 1×2 window with values 1/3 and 1/5 against the template (1/7, 2) centred on the second pixel: the exact
+    value is `(1/3 − 1/7)² + (2 − 1/5)² = 36121/11025`, and `u = 2^-53` -/
+example :
+    let f : Img ℚ := { shape := [1, 2], data := #[1 / 3, 1 / 5] }
+    tmAtG exactTmOps .nearest f [1, 2] #[1 / 7, 2] [0, 1] = 36121 / 11025 ∧ uRnd = 1 / 9007199254740992 ∧
+    (1 - uRnd) ^ 5 * (36121 / 11025) ≤ tmAtG (ratTmOps Mahotas.C05.rne53) .nearest f [1, 2] #[1 / 7, 2] [0, 1] := by
+  intro f
+  have h := C07_template_match_float_error_bound _ Mahotas.C05.rne53_rounding .nearest f [1, 2] #[1 / 7, 2] [0, 1]
+  have e : tmAtG exactTmOps .nearest f [1, 2] #[1 / 7, 2] [0, 1] = 36121 / 11025 := by
+    simp [tmAtG, exactTmOps, f, shapeSize, List.range, List.range.loop, fixPos, fixOffset, addPos, offsetOf, unravelI, unravel,
+      subPos, centreOf, Img.getD, inside, ravelI]
+    norm_num
+  refine ⟨e, by unfold uRnd; norm_num, ?_⟩
+  rw [e] at h
+  exact h.2.1
 
 /-- **C07-R4d (`majority_filter`, closed form of the loops).** For a 2-D image `rows × cols` and window size `N` (the
 wrapper replaces an even `N` by `N + 1`, `majorityN`), `py_majority_filter` — output cleared, nothing done when
